@@ -27,6 +27,13 @@ from .c10 import responder_worker  # noqa: F401  (same root set-up)
 PROP = "C09"
 
 
+def strict_hex(analysis: Analysis, res: RuleResult, rule: str) -> None:
+    """The request payload is decoded as strict hex text (shared by C09-R1 and C10-R4)."""
+    dec = analysis.p.func("ota:fw_hex_to_int")
+    lenient = any(True for _ in common.calls_in(dec.node, "fromhex"))
+    res.add(rule, "ota:fw_hex_to_int / payload is strict hex text (unhexlify) of packed words", any(True for _ in common.calls_in(dec.node, "unhexlify")) and not lenient, common.where(analysis, dec, dec.node), "binascii.unhexlify" if not lenient else "bytes.fromhex skips ASCII whitespace, which unhexlify rejects: requests with blanks between byte pairs are no longer malformed")
+
+
 def fmt_rule(analysis: Analysis, res: RuleResult) -> None:
     for qual, fn_name in (("ota:fw_hex_to_int", "unpack"), ("ota:fw_int_to_hex", "pack")):
         info = analysis.p.func(qual)
@@ -42,8 +49,7 @@ def fmt_rule(analysis: Analysis, res: RuleResult) -> None:
     # hex text <-> bytes on both sides
     dec = analysis.p.func("ota:fw_hex_to_int")
     enc = analysis.p.func("ota:fw_int_to_hex")
-    lenient = any(True for _ in common.calls_in(dec.node, "fromhex"))
-    res.add("C09-R1", "ota:fw_hex_to_int / payload is strict hex text (unhexlify) of packed words", any(True for _ in common.calls_in(dec.node, "unhexlify")) and not lenient, common.where(analysis, dec, dec.node), "binascii.unhexlify" if not lenient else "bytes.fromhex skips ASCII whitespace, which unhexlify rejects: requests with blanks between byte pairs are no longer malformed")
+    strict_hex(analysis, res, "C09-R1")
     res.add("C09-R1", "ota:fw_int_to_hex / result is hex text (hexlify / bytes.hex) of packed words", any(True for _ in common.calls_in(enc.node, "hexlify")) or any(True for _ in common.calls_in(enc.node, "hex")), common.where(analysis, enc, enc.node), "")
 
 
@@ -305,6 +311,10 @@ def run(analysis: Analysis, tier: str) -> RuleResult:
                 res.add("C09-R2", f"{q} / the block data is data[i*16 : i*16 + 16] for the requested index i", ok_b, "mysensors/ota.py", f"slice bounds lo={b['lo'] if b else None} hi={b['hi'] if b else None}"[:260], r["witness"] if not ok_b else None)
                 ok_src = bool(b) and "'data'" in (b["base"] or "") and "firmware" in (b["base"] or "")
                 res.add("C09-R3", f"{q} / blocks are cut from the stored record's data", ok_src, "mysensors/ota.py", f"sliced value {b['base'][:120] if b else None}", r["witness"] if not ok_src else None)
+                # the record is the one the response header names: firmware[(type, version)] with the echoed words
+                want = f"('tuple', {r['req_words'][0]}, {r['req_words'][1]})" if len(r["req_words"]) > 1 else "?"
+                ok_key = bool(b) and want in (b["base"] or "")
+                res.add("C09-R3", f"{q} / the served record is the firmware the response header names (type, version echoed)", ok_key, "mysensors/ota.py", "firmware[(type, version)] keyed by the echoed words" if ok_key else f"the block data comes from {b['base'][:140] if b else None}, not from the firmware (type, version) the response echoes: a node asking for another image gets this one's bytes under the other label", r["witness"] if not ok_key else None)
             else:
                 a = r["args"]
                 ok = r["npack"] == 1 and len(a) == 4 and "'blocks'" in a[2] and "'crc'" in a[3] and "unpack0" in a[0] and "unpack1" in a[1] and "get" in a[0]
@@ -327,6 +337,12 @@ def run(analysis: Analysis, tier: str) -> RuleResult:
         res.add("C09-R6", "ota:load_fw / hands out the loaded image", False, "mysensors/ota.py", "no path of load_fw returns an image")
     for r in lrows:
         res.add("C09-R6", "ota:load_fw / returns the whole address span (minaddr..maxaddr) of the Intel-HEX file named by its argument", not r["problems"], "mysensors/ota.py", "IntelHex().fromfile(open(path), format='hex'); tobinstr() without a range" if not r["problems"] else "; ".join(r["problems"]), r["witness"] if r["problems"] else None)
+    # firmware responses reach the node also when it sleeps (shared with C07-R2)
+    from . import c07
+
+    for summ in common.pmap(analysis, c07.router_worker, [(analysis.versions[-1], "serial", "sync")]):
+        bad = [r for r in summ["stream_rows"] if not r["ok"]]
+        res.add("C09-R7", "__init__:Gateway._route_message / firmware (stream) responses are never withheld or dropped by the router", bool(summ["stream_rows"]) and not bad, "mysensors/__init__.py", f"{len(summ['stream_rows'])} path(s) return the message" if not bad else "a firmware response for a sleeping node is withheld or dropped by the router", bad[0]["witness"] if bad else None)
     block_size(analysis, res)
     single_source(analysis, res)
     padding(analysis, res)
